@@ -129,6 +129,11 @@ def _frame(kind):
 
     if kind == 0:
         return pd.DataFrame({"x": [1, 2, 3], "y": ["a", "é", ""]})
+    if kind == 2:
+        # rows selected from a larger frame keep their labels
+        return pd.DataFrame({"x": [1, 2, 3, 4, 5]}).iloc[[1, 3, 4]]
+    if kind == 3:
+        return pd.DataFrame({"k": ["a", "b"], "v": [1.5, 2.5]}).set_index("k")
     return pd.DataFrame({"x": []})
 
 
@@ -156,6 +161,10 @@ def result_value(tag):
         return _frame(0)
     if tag == "frame1":
         return _frame(1)
+    if tag == "frame_labels":
+        return _frame(2)
+    if tag == "frame_named_index":
+        return _frame(3)
     if tag == "str_big":
         return "é" * (1 << 19)
     if tag == "bytes_big":
